@@ -144,8 +144,10 @@ def _harvest():
             ("0.5.0", "snote(n5,[c,n],4,1:1,1/1/3,2/1/3,0.3333,1.0,[s])-deletion."),
             ("0.3.0", "snote(n5,[c,n],4,1:1,1/1/3,2/1/3,0.3333,1.0,[s])-deletion."),
             # performed notes of the oldest versions carry tick times with two decimals: fractions on both sides of one half
-            ("0.1.0", "note(1,[c,n],6,39060.60,39890.40,38)."), ("0.1.0", "note(6,[c,n],5,48840.50,49870.99,26)."),
-            ("0.2.0", "note(17,[c,n],5,72600.75,75380.25,75390.50,26)."), ("0.1.0", "note(85,[b,b],3,162600.49,164950.51,27).")]
+            ("0.1.0", "snote(n1,[c,n],6,0:3,0/1,1/8,-4.00000,-3.00000,[1])-note(1,[c,n],6,39060.60,39890.40,38)."),
+            ("0.1.0", "snote(n2,[d,n],5,1:1,0/1,1/8,0.00000,1.00000,[1])-note(6,[d,n],5,48840.50,49870.99,26)."),
+            ("0.2.0", "snote(n3,[e,b],5,1:2,0/1,1/4,1.00000,3.00000,[s])-note(17,[e,b],5,72600.75,75380.25,26)."),
+            ("0.1.0", "insertion-note(85,[b,b],3,162600.49,164950.51,27).")]
     return out
 
 
@@ -264,10 +266,16 @@ def _bounded(b):
                         b.case("upgrade/to_v1_keeps_kind_and_musical_content", False, case, "to_v1 raised %s: %s" % (type(e).__name__, str(e)[:100]), nontrivial=nontriv, key=repr(key))
                     continue
                 good, why = True, ""
-                for f in ("Onset", "Offset", "Velocity", "MidiPitch", "Time", "Value", "NoteName", "Octave", "Measure", "Beat", "Anchor", "Id", "Modifier", "Duration"):
-                    if hasattr(obj, f) and hasattr(up, f):
-                        x, y = getattr(obj, f), getattr(up, f)
-                        if f in ("Onset", "Offset") and isinstance(x, float) and isinstance(y, (int, np.integer)):
+                pairs = [(obj, up)] + [(getattr(obj, sub), getattr(up, sub)) for sub in ("note", "snote") if getattr(obj, sub, None) is not None and getattr(up, sub, None) is not None]
+                for (obj_, up_) in pairs:
+                  for f in ("Onset", "Offset", "Velocity", "MidiPitch", "Time", "Value", "NoteName", "Octave", "Measure", "Beat", "Anchor", "Id", "Modifier", "Duration"):
+                    if hasattr(obj_, f) and hasattr(up_, f):
+                        x, y = getattr(obj_, f), getattr(up_, f)
+                        if f == "Duration" and isinstance(x, float) and isinstance(y, (int, np.integer)):
+                            # a difference of two tick times, each taken to its nearest tick
+                            if abs(x - int(y)) > 1.0 + 1e-9:
+                                good, why = False, "field Duration: %r became %r after upgrading" % (x, y)
+                        elif f in ("Onset", "Offset") and isinstance(x, float) and isinstance(y, (int, np.integer)):
                             # two-decimal tick times become whole ticks: the nearest one
                             if abs(x - int(y)) > 0.5 + 1e-9:
                                 good, why = False, "field %s: tick time %r became %r after upgrading (not the nearest tick)" % (f, x, y)
@@ -293,19 +301,27 @@ def _bounded(b):
                         b.case("upgrade/upgraded_line_reads_back_as_written", s3 == su and type(obj3) is type(up), case,
                                "upgraded line %r is written as %r after reading it back" % (su[:120], s3[:120]), nontrivial=nontriv, key=repr(key))
             # a line object written once, then edited, writes its NEW field values (no stale text): compared with a freshly parsed twin
-            if "Velocity" in getattr(obj, "field_names", ()) or "Onset" in getattr(obj, "field_names", ()):
-                fld = "Velocity" if "Velocity" in obj.field_names else "Onset"
-                try:
-                    twin = parse_matchline(s1, methods, ver)
+            def _holder(o):
+                for sub in ("note", "snote"):
+                    if getattr(o, sub, None) is not None and hasattr(getattr(o, sub), "field_names"):
+                        return getattr(o, sub)
+                return o
+            try:
+                twin = parse_matchline(s1, methods, ver)
+                h2, ht = _holder(obj2), _holder(twin)
+                fld = next((f for f in getattr(h2, "field_names", ()) if isinstance(getattr(h2, f, None), int) and not isinstance(getattr(h2, f, None), bool)
+                            and f in ("Velocity", "Value", "Time", "Octave", "MidiPitch", "Onset", "Offset")), None)
+                if fld is not None and twin is not None:
                     _ = obj2.matchline
-                    newv = (getattr(obj2, fld) or 0) + 1
-                    setattr(obj2, fld, newv)
-                    setattr(twin, fld, newv)
-                    b.case("line/text_follows_the_fields_after_an_edit", obj2.matchline == twin.matchline, case,
-                           "after writing, setting %s=%r and writing again the text is %r; a fresh object with that field writes %r" % (fld, newv, obj2.matchline[:100], twin.matchline[:100]),
+                    newv = getattr(h2, fld) + 1
+                    setattr(h2, fld, newv)
+                    setattr(ht, fld, newv)
+                    t2, tt = obj2.matchline, twin.matchline
+                    b.case("line/text_follows_the_fields_after_an_edit", t2 == tt and t2 != s1, case,
+                           "after writing, setting %s=%r and writing again the text is %r; a fresh object with that field writes %r" % (fld, newv, t2[:100], tt[:100]),
                            nontrivial=nontriv, key=repr(key))
-                except Exception:
-                    pass
+            except Exception:
+                pass
             # type-driven mutations
             for fn in obj.field_names:
                 v0_ = getattr(obj, fn, None)
